@@ -37,6 +37,16 @@ pub struct ProcSpec {
     pub workdir: Option<String>,
 }
 
+/// `ProcSpec::workdir` value standing for a directory whose name is not valid UTF-8
+/// (bytes `srv/d\xE4ta`): it cannot be written to launch.toml, so the build must fail loudly.
+pub const WORKDIR_NOT_UTF8: &str = "\u{1}not-utf8";
+
+impl LaunchSpec {
+    pub fn has_unrepresentable_value(&self) -> bool {
+        self.processes.iter().any(|p| p.workdir.as_deref() == Some(WORKDIR_NOT_UTF8))
+    }
+}
+
 #[derive(Clone, Debug, Default, PartialEq, Serialize, Deserialize)]
 pub struct LaunchSpec {
     pub processes: Vec<ProcSpec>,
